@@ -100,6 +100,10 @@ func TestC14MutatedMemo(t *testing.T) {
 		}
 		n := rapid.IntRange(1, 2).Draw(rt, "mutations")
 		var muts []kit.Mutation
+		if chance(rt, "hostile-actions", 8) {
+			kit.HostileActionList(rt, tree)
+			muts = append(muts, kit.Mutation{Kind: "hostile-action-list", Path: "/orbiter/pre_actions"})
+		}
 		for i := 0; i < n; i++ {
 			muts = append(muts, kit.Mutate(rt, tree))
 		}
